@@ -9,7 +9,7 @@ use std::collections::BTreeMap;
 
 #[derive(Clone, Debug, PartialEq)]
 enum G {
-    Leaf,
+    Leaf(usize),
     Keep(Box<G>),
     Opt(bool, Box<G>),
     Many(Box<G>),
@@ -19,7 +19,7 @@ enum G {
 impl G {
     fn flattenable(&self) -> bool {
         match self {
-            G::Leaf => false,
+            G::Leaf(_) => false,
             G::Keep(i) => i.flattenable(),
             G::Opt(false, _) => true,
             G::Opt(true, i) => i.flattenable(),
@@ -50,7 +50,7 @@ impl G {
     }
     fn shape(&self) -> String {
         match self {
-            G::Leaf => "L".into(),
+            G::Leaf(_) => "L".into(),
             G::Keep(i) => i.shape(),
             G::Opt(true, i) => i.shape(),
             G::Opt(false, i) => format!("O({})", i.shape()),
@@ -82,7 +82,7 @@ fn map(m: Map, f: impl Fn(G) -> G) -> Map {
 
 fn getters(n: &Node) -> Map {
     match n {
-        Node::Ident { name, .. } => Map::from([(name.clone(), G::Leaf)]),
+        Node::Ident { name, mention } => Map::from([(name.clone(), G::Leaf(*mention))]),
         Node::PosPred(x) | Node::Push(x) => map(getters(x), |g| G::Keep(Box::new(g))),
         Node::RestoreOnErr(x) => getters(x),
         Node::NegPred(_) => Map::new(),
@@ -97,6 +97,37 @@ fn getters(n: &Node) -> Map {
         | Node::RepMinMax(x, _, _) => map(getters(x), |g| G::Many(Box::new(g))),
         _ => Map::new(),
     }
+}
+
+impl G {
+    fn paths(&self, prefix: &mut Vec<usize>, out: &mut BTreeMap<usize, String>) {
+        match self {
+            G::Leaf(m) => {
+                out.insert(*m, prefix.iter().map(|i| i.to_string()).collect::<Vec<_>>().join("."));
+            }
+            G::Keep(i) | G::Opt(_, i) | G::Many(i) => i.paths(prefix, out),
+            G::Tuple(v) => {
+                for (k, x) in v.iter().enumerate() {
+                    prefix.push(k);
+                    x.paths(prefix, out);
+                    prefix.pop();
+                }
+            }
+        }
+    }
+}
+
+/// Getter name -> (mention id -> tuple-slot path, e.g. "1.0"; "" when the getter is no tuple):
+/// the slot through which each mention of the rule's expression is handed out.
+pub fn mention_paths(rule: &RuleDef) -> BTreeMap<String, BTreeMap<usize, String>> {
+    getters(&rule.expr)
+        .into_iter()
+        .map(|(k, v)| {
+            let mut out = BTreeMap::new();
+            v.paths(&mut Vec::new(), &mut out);
+            (k, out)
+        })
+        .collect()
 }
 
 /// Getter name -> shape string (`L` leaf, `O(..)`, `V(..)`, `T(..,..)`).
